@@ -177,7 +177,7 @@ namespace sim {
 void register_c16() {
     Property p;
     p.id = "C16"; p.level = "exploration";
-    p.rule = "two kinds of run: (a) a seeded writer plan whose data-page statistics (parsed by the peer reader) must bound every non-NaN value of that page, carry no NaN bound and the page's null count; (b) a peer-written multi-row-group file whose chunk statistics are true bounds by construction (new fields, deprecated fields, both or none; none when a chunk holds NaN) queried through column_statistics / row_group_matches / filter_row_groups with seeded (column, operator, probe at/next to/beyond a group's bounds, stored value, random, NaN, max_indices) in a random transport, judged by brute force over the model; one evaluation = one API verdict; non-trivial = file has values; distinct = hash of (codec, column types, statistics mode per chunk)";
+    p.rule = "two kinds of run: (a) a seeded writer plan (incl. integer columns annotated as unsigned) whose data-page statistics (parsed by the peer reader) must bound every non-NaN value of that page in the column's order, carry no NaN bound and the page's null count; (b) a peer-written multi-row-group file whose chunk statistics are true bounds by construction (new fields, deprecated fields - for byte arrays in the signed byte order the format defines for them -, both or none; none when a chunk holds NaN; in the logical type's order for unsigned integers and DECIMAL in fixed-length byte arrays; BOOLEAN columns included) queried through column_statistics / row_group_matches / filter_row_groups with seeded (column, operator, probe at/next to/beyond a group's bounds, stored value, random, NaN, max_indices) in a random transport, judged by brute force over the model; one evaluation = one API verdict; non-trivial = file has values; distinct = hash of (codec, column types, statistics mode per chunk)";
     p.quick_runs = 12000; p.thorough_runs = 600000;
     p.run = run_c16;
     p.assumptions = {"a row 'matches' when it is non-null and (value op probe) holds under the physical type's order (signed ints, IEEE comparison for floats so x != NaN is true, unsigned lexicographic bytes)",
